@@ -28,12 +28,101 @@ theorem encSlot_sim {P : Preset} {T : Keys} {enc : TermEnc → Term → Res Term
     · intro ss prevN _ ha
       simp only [Spec.resolveSlot, hres ss ha]
 
+theorem encSlot_sim_gen {F : Prop} {P : Preset} {T : Keys} {enc : TermEnc → Term → Res TermEnc (List Row × WTerm)}
+    {inG : Bool} {te : TermEnc} {R : Keys} (inv : TInv P T te R) (prev : Option Term) (t : Term)
+    (henc : (¬ F ∧ ∃ te' e, enc te t = (te', .error e)) ∨
+      ∃ te' rows w R', enc te t = (te', .ok (rows, w)) ∧ Sim P T te R te' rows R' ∧
+        ∀ ss, AgreeT R' te' ss →
+          Spec.resolveTerm inG (setLR ss te) w = .ok (setLR ss te', t.norm)) :
+    (¬ F ∧ ∃ te' pv e, encSlot enc te prev t = (te', pv, .error e)) ∨
+    ∃ te' rows ow R', encSlot enc te prev t = (te', some t, .ok (rows, ow)) ∧
+      Sim P T te R te' rows R' ∧
+      ∀ ss prevN, prevN = prev.map Term.norm → AgreeT R' te' ss →
+        Spec.resolveSlot inG (setLR ss te) prevN ow = .ok (setLR ss te', t.norm) := by
+  by_cases hprev : prev = some t
+  · right
+    refine ⟨te, [], none, R, ?_, Sim.refl inv, ?_⟩
+    · simp [encSlot, hprev]
+    · intro ss prevN hN _
+      subst hN hprev
+      simp [Spec.resolveSlot]
+  · rcases henc with ⟨hnF, te', e, herr⟩ | henc
+    · left
+      refine ⟨hnF, te', prev, e, ?_⟩
+      have : (prev == some t) = false := by simpa using hprev
+      simp only [encSlot, this, herr]
+      simp
+    · exact Or.inr (encSlot_sim inv prev t henc)
+
 theorem resolveSpo_eq {st a1 a2 a3 : Spec.State} {ws wp wo : Option WTerm} {ts tp to : Term}
     (h1 : Spec.resolveSlot false st st.rep.s ws = .ok (a1, ts))
     (h2 : Spec.resolveSlot false { a1 with rep := { a1.rep with s := some ts } } a1.rep.p wp = .ok (a2, tp))
     (h3 : Spec.resolveSlot false { a2 with rep := { a2.rep with p := some tp } } a2.rep.o wo = .ok (a3, to)) :
     Spec.resolveSpo st ws wp wo = .ok ({ a3 with rep := { a3.rep with o := some to } }, ts, tp, to) := by
   simp only [Spec.resolveSpo, bind, Except.bind, pure, Except.pure, h1, h2, h3]
+
+/-- One of the three subject / predicate / object slots raises. -/
+def SpoSlotsErr (te : TermEnc) (rep : Repeated) (s p o : Term) : Prop :=
+  (∃ te1 pv e, encSlot TermEnc.spo te rep.s s = (te1, pv, .error e)) ∨
+  (∃ te1 rs r1 ws te2 pv e, encSlot TermEnc.spo te rep.s s = (te1, rs, .ok (r1, ws)) ∧
+      encSlot TermEnc.spo te1 rep.p p = (te2, pv, .error e)) ∨
+  (∃ te1 rs r1 ws te2 rp r2 wp te3 pv e, encSlot TermEnc.spo te rep.s s = (te1, rs, .ok (r1, ws)) ∧
+      encSlot TermEnc.spo te1 rep.p p = (te2, rp, .ok (r2, wp)) ∧
+      encSlot TermEnc.spo te2 rep.o o = (te3, pv, .error e))
+
+theorem SpoSlotsErr.encodeTriple {es : EncState} {s p o : Term}
+    (h : SpoSlotsErr es.te.startRow es.rep s p o) (exc : PyErr) :
+    ∃ es' e, encodeTriple exc es [s, p, o] = (es', .error e) := by
+  rcases h with ⟨te1, pv, e, h1⟩ | ⟨te1, rs, r1, ws, te2, pv, e, h1, h2⟩ |
+    ⟨te1, rs, r1, ws, te2, rp, r2, wp, te3, pv, e, h1, h2, h3⟩
+  · simp only [Jelly.encodeTriple, h1]; exact ⟨_, _, rfl⟩
+  · simp only [Jelly.encodeTriple, h1, h2]; exact ⟨_, _, rfl⟩
+  · simp only [Jelly.encodeTriple, h1, h2, h3]; exact ⟨_, _, rfl⟩
+
+theorem SpoSlotsErr.encodeQuad {es : EncState} {s p o g : Term}
+    (h : SpoSlotsErr es.te.startRow es.rep s p o) (exc : PyErr) :
+    ∃ es' e, encodeQuad exc es [s, p, o, g] = (es', .error e) := by
+  rcases h with ⟨te1, pv, e, h1⟩ | ⟨te1, rs, r1, ws, te2, pv, e, h1, h2⟩ |
+    ⟨te1, rs, r1, ws, te2, rp, r2, wp, te3, pv, e, h1, h2, h3⟩
+  · simp only [Jelly.encodeQuad, h1]; exact ⟨_, _, rfl⟩
+  · simp only [Jelly.encodeQuad, h1, h2]; exact ⟨_, _, rfl⟩
+  · simp only [Jelly.encodeQuad, h1, h2, h3]; exact ⟨_, _, rfl⟩
+
+theorem spoSlots_sim_gen {F : Prop} {P : Preset} {T : Keys} (hpn : 0 < P.maxNames) (hf : F → TFits P T)
+    {te : TermEnc} {R : Keys}
+    (inv : TInv P T te R) (rep : Repeated) (s p o : Term)
+    (hs : s.WF = true) (hp : p.WF = true) (ho : o.WF = true)
+    (ks : (termKeys (P.maxPrefixes != 0) s).sub T) (kp : (termKeys (P.maxPrefixes != 0) p).sub T)
+    (ko : (termKeys (P.maxPrefixes != 0) o).sub T) :
+    (¬ F ∧ SpoSlotsErr te rep s p o) ∨
+    ∃ te1 te2 te3 r1 r2 r3 ws wp wo R3,
+      encSlot TermEnc.spo te rep.s s = (te1, some s, .ok (r1, ws)) ∧
+      encSlot TermEnc.spo te1 rep.p p = (te2, some p, .ok (r2, wp)) ∧
+      encSlot TermEnc.spo te2 rep.o o = (te3, some o, .ok (r3, wo)) ∧
+      Sim P T te R te3 (r1 ++ r2 ++ r3) R3 ∧
+      ∀ ss, AgreeT R3 te3 ss → ss.rep.s = rep.s.map Term.norm → ss.rep.p = rep.p.map Term.norm →
+        ss.rep.o = rep.o.map Term.norm →
+        Spec.resolveSpo (setLR ss te) ws wp wo
+          = .ok (setLR { ss with rep := { ss.rep with s := some s.norm, p := some p.norm, o := some o.norm } } te3,
+                 s.norm, p.norm, o.norm) := by
+  rcases encSlot_sim_gen inv rep.s s (spo_sim_gen hpn hf s te R hs inv ks) with
+    ⟨hnF, te', pv, e, herr⟩ | ⟨te1, r1, ws, R1, e1, s1, res1⟩
+  · exact Or.inl ⟨hnF, Or.inl ⟨te', pv, e, herr⟩⟩
+  rcases encSlot_sim_gen s1.inv rep.p p (spo_sim_gen hpn hf p te1 R1 hp s1.inv kp) with
+    ⟨hnF, te', pv, e, herr⟩ | ⟨te2, r2, wp, R2, e2, s2, res2⟩
+  · exact Or.inl ⟨hnF, Or.inr (Or.inl ⟨te1, _, r1, ws, te', pv, e, e1, herr⟩)⟩
+  rcases encSlot_sim_gen s2.inv rep.o o (spo_sim_gen hpn hf o te2 R2 ho s2.inv ko) with
+    ⟨hnF, te', pv, e, herr⟩ | ⟨te3, r3, wo, R3, e3, s3, res3⟩
+  · exact Or.inl ⟨hnF, Or.inr (Or.inr ⟨te1, _, r1, ws, te2, _, r2, wp, te', pv, e, e1, e2, herr⟩)⟩
+  right
+  refine ⟨te1, te2, te3, r1, r2, r3, ws, wp, wo, R3, e1, e2, e3, (s1.trans s2).trans s3, ?_⟩
+  intro ss ha hrs hrp hro
+  have ha2 : AgreeT R2 te2 ss := ha.mono s3.pres s3.sub
+  have ha1 : AgreeT R1 te1 ss := ha2.mono s2.pres s2.sub
+  have q1 := res1 ss ss.rep.s hrs ha1
+  have q2 := res2 { ss with rep := { ss.rep with s := some s.norm } } ss.rep.p hrp ha2
+  have q3 := res3 { ss with rep := { ss.rep with s := some s.norm, p := some p.norm } } ss.rep.o hro ha
+  exact resolveSpo_eq q1 q2 q3
 
 theorem spoSlots_sim {P : Preset} {T : Keys} (hf : TFits P T) {te : TermEnc} {R : Keys}
     (inv : TInv P T te R) (rep : Repeated) (s p o : Term)
@@ -50,17 +139,9 @@ theorem spoSlots_sim {P : Preset} {T : Keys} (hf : TFits P T) {te : TermEnc} {R 
         Spec.resolveSpo (setLR ss te) ws wp wo
           = .ok (setLR { ss with rep := { ss.rep with s := some s.norm, p := some p.norm, o := some o.norm } } te3,
                  s.norm, p.norm, o.norm) := by
-  obtain ⟨te1, r1, ws, R1, e1, s1, res1⟩ := encSlot_sim inv rep.s s (spo_sim hf s te R hs inv ks)
-  obtain ⟨te2, r2, wp, R2, e2, s2, res2⟩ := encSlot_sim s1.inv rep.p p (spo_sim hf p te1 R1 hp s1.inv kp)
-  obtain ⟨te3, r3, wo, R3, e3, s3, res3⟩ := encSlot_sim s2.inv rep.o o (spo_sim hf o te2 R2 ho s2.inv ko)
-  refine ⟨te1, te2, te3, r1, r2, r3, ws, wp, wo, R3, e1, e2, e3, (s1.trans s2).trans s3, ?_⟩
-  intro ss ha hrs hrp hro
-  have ha2 : AgreeT R2 te2 ss := ha.mono s3.pres s3.sub
-  have ha1 : AgreeT R1 te1 ss := ha2.mono s2.pres s2.sub
-  have q1 := res1 ss ss.rep.s hrs ha1
-  have q2 := res2 { ss with rep := { ss.rep with s := some s.norm } } ss.rep.p hrp ha2
-  have q3 := res3 { ss with rep := { ss.rep with s := some s.norm, p := some p.norm } } ss.rep.o hro ha
-  exact resolveSpo_eq q1 q2 q3
+  rcases spoSlots_sim_gen (F := True) hf.posn (fun _ => hf) inv rep s p o hs hp ho ks kp ko with ⟨h, _⟩ | h
+  · exact absurd trivial h
+  · exact h
 
 /-- Writer tables between statements: well-formed, of the declared sizes. -/
 structure WFT (P : Preset) (te : TermEnc) : Prop where
@@ -72,8 +153,14 @@ structure WFT (P : Preset) (te : TermEnc) : Prop where
   maxd : te.datatypes.lookup.maxSize = P.maxDatatypes
   p0 : P.maxPrefixes = 0 → te.prefixes.lastReused = 0
 
-theorem WFT.tinv {P : Preset} {te : TermEnc} (h : WFT P te) (T : Keys) : TInv P T te {} :=
-  ⟨h.wfn, h.wfp, h.wfd, h.maxn, h.maxp, h.maxd, Rec.nil _, Rec.nil _, Rec.nil _,
+/-- `pinned` is invisible to `WFT`. -/
+theorem WFT.startRow {P : Preset} {te : TermEnc} (h : WFT P te) : WFT P te.startRow :=
+  ⟨h.wfn.congr rfl rfl rfl, h.wfp.congr rfl rfl rfl, h.wfd.congr rfl rfl rfl, h.maxn, h.maxp, h.maxd, h.p0⟩
+
+/-- The start of a row: `startRow` resets the pins, no key has been touched yet. -/
+theorem WFT.tinv {P : Preset} {te : TermEnc} (h : WFT P te) (T : Keys) : TInv P T te.startRow {} :=
+  ⟨h.startRow.wfn, h.startRow.wfp, h.startRow.wfd, h.maxn, h.maxp, h.maxd, Rec.nil _, Rec.nil _, Rec.nil _,
+   PinOK.nil rfl, PinOK.nil rfl, PinOK.nil rfl,
    ⟨fun _ h => by simp at h, fun _ h => by simp at h, fun _ h => by simp at h⟩, h.p0⟩
 
 theorem TInv.wft {P : Preset} {T : Keys} {te : TermEnc} {R : Keys} (h : TInv P T te R) : WFT P te :=
@@ -91,6 +178,11 @@ theorem EM.setLR {te : TermEnc} {ss : Spec.State} (m : EM te ss) (te' : TermEnc)
 
 theorem EM.setLR_rep {te : TermEnc} {ss : Spec.State} (m : EM te ss) (te' : TermEnc) (r : Repeated) :
     EM te (Jelly.setLR { ss with rep := r } te') :=
+  ⟨⟨m.n.size, m.n.len, m.n.la, m.n.res⟩, ⟨m.p.size, m.p.len, m.p.la, m.p.res⟩,
+   ⟨m.d.size, m.d.len, m.d.la, m.d.res⟩⟩
+
+/-- `pinned` is invisible to the mirror. -/
+theorem EM.startRow {te : TermEnc} {ss : Spec.State} (m : EM te ss) : EM te.startRow ss :=
   ⟨⟨m.n.size, m.n.len, m.n.la, m.n.res⟩, ⟨m.p.size, m.p.len, m.p.la, m.p.res⟩,
    ⟨m.d.size, m.d.len, m.d.la, m.d.res⟩⟩
 
@@ -122,6 +214,38 @@ structure Inv (P : Preset) (es : EncState) (ss : Spec.State) : Prop where
   ro : ss.rep.o = es.rep.o.map Term.norm
   rg : ss.rep.g = es.rep.g.map Term.norm
 
+/-- What a successful `encodeTriple` guarantees (shared by the general and the sized form). -/
+def TripleSimOK (P : Preset) (es : EncState) (ss : Spec.State) (exc : PyErr) (s p o : Term) : Prop :=
+    ∃ es' rows ws wp wo ssE ss',
+      encodeTriple exc es [s, p, o] = (es', .ok (rows ++ [Row.triple ws wp wo])) ∧
+      (∀ rest acc i, Spec.run ss (rows ++ rest) acc i = Spec.run ssE rest acc (i + rows.length)) ∧
+      SameFrame ss ssE ∧
+      Spec.resolveSpo ssE ws wp wo = .ok (ss', s.norm, p.norm, o.norm) ∧
+      Inv P es' ss' ∧ ss'.opts = ss.opts ∧ ss'.graph = ss.graph
+
+theorem encodeTriple_sim_gen {F : Prop} {P : Preset} {T : Keys} (hpn : 0 < P.maxNames) (hf : F → TFits P T)
+    {es : EncState} {ss : Spec.State}
+    (inv : Inv P es ss) (hopts : ss.opts ≠ none) (exc : PyErr) (s p o : Term)
+    (hs : s.WF = true) (hp : p.WF = true) (ho : o.WF = true)
+    (ks : (termKeys (P.maxPrefixes != 0) s).sub T) (kp : (termKeys (P.maxPrefixes != 0) p).sub T)
+    (ko : (termKeys (P.maxPrefixes != 0) o).sub T) :
+    (¬ F ∧ ∃ es' e, encodeTriple exc es [s, p, o] = (es', .error e)) ∨ TripleSimOK P es ss exc s p o := by
+  rcases spoSlots_sim_gen hpn hf (inv.wft.tinv T) es.rep s p o hs hp ho ks kp ko with
+    ⟨hnF, herr⟩ | ⟨te1, te2, te3, r1, r2, r3, ws, wp, wo, R3, e1, e2, e3, sim, res⟩
+  · exact Or.inl ⟨hnF, herr.encodeTriple exc⟩
+  right
+  obtain ⟨ssE, mE, fE, runE⟩ := sim.ing ss inv.em.startRow hopts
+  have hself : setLR ssE es.te.startRow = ssE :=
+    setLR_eq_self (fE.lrn.trans inv.lrn) (fE.lrp.trans inv.lrp) (fE.lrd.trans inv.lrd)
+  have hres := res ssE (mE.agree sim.inv.wft R3) (fE.rep ▸ inv.rs) (fE.rep ▸ inv.rp) (fE.rep ▸ inv.ro)
+  rw [hself] at hres
+  refine ⟨{ te := te3, rep := { es.rep with s := some s, p := some p, o := some o } },
+    r1 ++ r2 ++ r3, ws, wp, wo, ssE, _, ?_, runE, fE, hres, ?_, fE.opts, fE.graph⟩
+  · simp only [encodeTriple, e1, e2, e3]
+  · exact ⟨sim.inv.wft, mE.setLR_rep te3 _, rfl, rfl, rfl, rfl, rfl, rfl, by
+      show ssE.rep.g = es.rep.g.map Term.norm
+      rw [fE.rep]; exact inv.rg⟩
+
 theorem encodeTriple_sim {P : Preset} {T : Keys} (hf : TFits P T) {es : EncState} {ss : Spec.State}
     (inv : Inv P es ss) (hopts : ss.opts ≠ none) (exc : PyErr) (s p o : Term)
     (hs : s.WF = true) (hp : p.WF = true) (ho : o.WF = true)
@@ -133,20 +257,51 @@ theorem encodeTriple_sim {P : Preset} {T : Keys} (hf : TFits P T) {es : EncState
       SameFrame ss ssE ∧
       Spec.resolveSpo ssE ws wp wo = .ok (ss', s.norm, p.norm, o.norm) ∧
       Inv P es' ss' ∧ ss'.opts = ss.opts ∧ ss'.graph = ss.graph := by
-  obtain ⟨te1, te2, te3, r1, r2, r3, ws, wp, wo, R3, e1, e2, e3, sim, res⟩ :=
-    spoSlots_sim hf (inv.wft.tinv T) es.rep s p o hs hp ho ks kp ko
-  obtain ⟨ssE, mE, fE, runE⟩ := sim.ing ss inv.em hopts
-  have hself : setLR ssE es.te = ssE :=
-    setLR_eq_self (fE.lrn.trans inv.lrn) (fE.lrp.trans inv.lrp) (fE.lrd.trans inv.lrd)
-  have hres := res ssE (mE.agree sim.inv.wft R3) (fE.rep ▸ inv.rs) (fE.rep ▸ inv.rp) (fE.rep ▸ inv.ro)
-  rw [hself] at hres
-  refine ⟨{ te := te3, rep := { es.rep with s := some s, p := some p, o := some o } },
-    r1 ++ r2 ++ r3, ws, wp, wo, ssE, _, ?_, runE, fE, hres, ?_, fE.opts, fE.graph⟩
-  · simp only [encodeTriple, e1, e2, e3]
-  · exact ⟨sim.inv.wft, mE.setLR_rep te3 _, rfl, rfl, rfl, rfl, rfl, rfl, by
-      show ssE.rep.g = es.rep.g.map Term.norm
-      rw [fE.rep]; exact inv.rg⟩
+  rcases encodeTriple_sim_gen (F := True) hf.posn (fun _ => hf) inv hopts exc s p o hs hp ho ks kp ko with
+    ⟨h, _⟩ | h
+  · exact absurd trivial h
+  · exact h
 
+def QuadSimOK (P : Preset) (es : EncState) (ss : Spec.State) (exc : PyErr) (s p o g : Term) : Prop :=
+    ∃ es' rows ws wp wo wg ssE ss1 ss',
+      encodeQuad exc es [s, p, o, g] = (es', .ok (rows ++ [Row.quad ws wp wo wg])) ∧
+      (∀ rest acc i, Spec.run ss (rows ++ rest) acc i = Spec.run ssE rest acc (i + rows.length)) ∧
+      SameFrame ss ssE ∧
+      Spec.resolveSpo ssE ws wp wo = .ok (ss1, s.norm, p.norm, o.norm) ∧
+      Spec.resolveSlot true ss1 ss1.rep.g wg = .ok (ss', g.norm) ∧
+      Inv P es' { ss' with rep := { ss'.rep with g := some g.norm } } ∧
+      ss'.opts = ss.opts ∧ ss'.graph = ss.graph
+
+theorem encodeQuad_sim_gen {F : Prop} {P : Preset} {T : Keys} (hpn : 0 < P.maxNames) (hf : F → TFits P T)
+    {es : EncState} {ss : Spec.State}
+    (inv : Inv P es ss) (hopts : ss.opts ≠ none) (exc : PyErr) (s p o g : Term)
+    (hs : s.WF = true) (hp : p.WF = true) (ho : o.WF = true) (hg : g.WFGraph = true)
+    (ks : (termKeys (P.maxPrefixes != 0) s).sub T) (kp : (termKeys (P.maxPrefixes != 0) p).sub T)
+    (ko : (termKeys (P.maxPrefixes != 0) o).sub T) (kg : (termKeys (P.maxPrefixes != 0) g).sub T) :
+    (¬ F ∧ ∃ es' e, encodeQuad exc es [s, p, o, g] = (es', .error e)) ∨ QuadSimOK P es ss exc s p o g := by
+  rcases spoSlots_sim_gen hpn hf (inv.wft.tinv T) es.rep s p o hs hp ho ks kp ko with
+    ⟨hnF, herr⟩ | ⟨te1, te2, te3, r1, r2, r3, ws, wp, wo, R3, e1, e2, e3, sim3, res⟩
+  · exact Or.inl ⟨hnF, herr.encodeQuad exc⟩
+  rcases encSlot_sim_gen sim3.inv es.rep.g g (graph_sim_gen hpn hf g te3 R3 hg sim3.inv kg) with
+    ⟨hnF, te', pv, e, herr⟩ | ⟨te4, r4, wg, R4, e4, s4, res4⟩
+  · refine Or.inl ⟨hnF, ?_⟩
+    simp only [encodeQuad, e1, e2, e3, herr]
+    exact ⟨_, _, rfl⟩
+  right
+  have sim := sim3.trans s4
+  obtain ⟨ssE, mE, fE, runE⟩ := sim.ing ss inv.em.startRow hopts
+  have hself : setLR ssE es.te.startRow = ssE :=
+    setLR_eq_self (fE.lrn.trans inv.lrn) (fE.lrp.trans inv.lrp) (fE.lrd.trans inv.lrd)
+  have ha4 : AgreeT R4 te4 ssE := mE.agree sim.inv.wft R4
+  have ha3 : AgreeT R3 te3 ssE := ha4.mono s4.pres s4.sub
+  have hres := res ssE ha3 (fE.rep ▸ inv.rs) (fE.rep ▸ inv.rp) (fE.rep ▸ inv.ro)
+  rw [hself] at hres
+  have hres4 := res4 { ssE with rep := { ssE.rep with s := some s.norm, p := some p.norm, o := some o.norm } }
+    ssE.rep.g (by rw [fE.rep]; exact inv.rg) ha4
+  refine ⟨{ te := te4, rep := { s := some s, p := some p, o := some o, g := some g } },
+    r1 ++ r2 ++ r3 ++ r4, ws, wp, wo, wg, ssE, _, _, ?_, runE, fE, hres, hres4, ?_, fE.opts, fE.graph⟩
+  · simp only [encodeQuad, e1, e2, e3, e4]
+  · exact ⟨sim.inv.wft, mE.congr ⟨rfl, rfl, rfl⟩ ⟨rfl, rfl, rfl⟩ ⟨rfl, rfl, rfl⟩, rfl, rfl, rfl, rfl, rfl, rfl, rfl⟩
 
 theorem encodeQuad_sim {P : Preset} {T : Keys} (hf : TFits P T) {es : EncState} {ss : Spec.State}
     (inv : Inv P es ss) (hopts : ss.opts ≠ none) (exc : PyErr) (s p o g : Term)
@@ -161,38 +316,31 @@ theorem encodeQuad_sim {P : Preset} {T : Keys} (hf : TFits P T) {es : EncState} 
       Spec.resolveSlot true ss1 ss1.rep.g wg = .ok (ss', g.norm) ∧
       Inv P es' { ss' with rep := { ss'.rep with g := some g.norm } } ∧
       ss'.opts = ss.opts ∧ ss'.graph = ss.graph := by
-  obtain ⟨te1, te2, te3, r1, r2, r3, ws, wp, wo, R3, e1, e2, e3, sim3, res⟩ :=
-    spoSlots_sim hf (inv.wft.tinv T) es.rep s p o hs hp ho ks kp ko
-  obtain ⟨te4, r4, wg, R4, e4, s4, res4⟩ :=
-    encSlot_sim sim3.inv es.rep.g g (graph_sim hf g te3 R3 hg sim3.inv kg)
-  have sim := sim3.trans s4
-  obtain ⟨ssE, mE, fE, runE⟩ := sim.ing ss inv.em hopts
-  have hself : setLR ssE es.te = ssE :=
-    setLR_eq_self (fE.lrn.trans inv.lrn) (fE.lrp.trans inv.lrp) (fE.lrd.trans inv.lrd)
-  have ha4 : AgreeT R4 te4 ssE := mE.agree sim.inv.wft R4
-  have ha3 : AgreeT R3 te3 ssE := ha4.mono s4.pres s4.sub
-  have hres := res ssE ha3 (fE.rep ▸ inv.rs) (fE.rep ▸ inv.rp) (fE.rep ▸ inv.ro)
-  rw [hself] at hres
-  have hres4 := res4 { ssE with rep := { ssE.rep with s := some s.norm, p := some p.norm, o := some o.norm } }
-    ssE.rep.g (by rw [fE.rep]; exact inv.rg) ha4
-  refine ⟨{ te := te4, rep := { s := some s, p := some p, o := some o, g := some g } },
-    r1 ++ r2 ++ r3 ++ r4, ws, wp, wo, wg, ssE, _, _, ?_, runE, fE, hres, hres4, ?_, fE.opts, fE.graph⟩
-  · simp only [encodeQuad, e1, e2, e3, e4]
-  · exact ⟨sim.inv.wft, mE.congr ⟨rfl, rfl, rfl⟩ ⟨rfl, rfl, rfl⟩ ⟨rfl, rfl, rfl⟩, rfl, rfl, rfl, rfl, rfl, rfl, rfl⟩
+  rcases encodeQuad_sim_gen (F := True) hf.posn (fun _ => hf) inv hopts exc s p o g hs hp ho hg ks kp ko kg with
+    ⟨h, _⟩ | h
+  · exact absurd trivial h
+  · exact h
 
-/-- The graph-start part of `Stream.graph`. -/
-theorem graphStart_sim {P : Preset} {T : Keys} (hf : TFits P T) {es : EncState} {ss : Spec.State}
-    (inv : Inv P es ss) (hopts : ss.opts ≠ none) (g : Term) (hg : g.WFGraph = true)
-    (kg : (termKeys (P.maxPrefixes != 0) g).sub T) :
+def GraphStartSimOK (P : Preset) (es : EncState) (ss : Spec.State) (g : Term) : Prop :=
     ∃ te' rows w ssE ss',
-      es.te.graph g = (te', .ok (rows, w)) ∧
+      es.te.startRow.graph g = (te', .ok (rows, w)) ∧
       (∀ rest acc i, Spec.run ss (rows ++ rest) acc i = Spec.run ssE rest acc (i + rows.length)) ∧
       SameFrame ss ssE ∧
       Spec.resolveTerm true ssE w = .ok (ss', g.norm) ∧
-      (∀ x, Inv P { es with te := te' } { ss' with graph := x }) ∧ ss'.opts = ss.opts := by
-  obtain ⟨te', rows, w, R', heq, sim, res⟩ := graph_sim hf g es.te {} hg (inv.wft.tinv T) kg
-  obtain ⟨ssE, mE, fE, runE⟩ := sim.ing ss inv.em hopts
-  have hself : setLR ssE es.te = ssE :=
+      (∀ x, Inv P { es with te := te' } { ss' with graph := x }) ∧ ss'.opts = ss.opts
+
+/-- The graph-start part of `Stream.graph`. -/
+theorem graphStart_sim_gen {F : Prop} {P : Preset} {T : Keys} (hpn : 0 < P.maxNames) (hf : F → TFits P T)
+    {es : EncState} {ss : Spec.State}
+    (inv : Inv P es ss) (hopts : ss.opts ≠ none) (g : Term) (hg : g.WFGraph = true)
+    (kg : (termKeys (P.maxPrefixes != 0) g).sub T) :
+    (¬ F ∧ ∃ te' e, es.te.startRow.graph g = (te', .error e)) ∨ GraphStartSimOK P es ss g := by
+  rcases graph_sim_gen hpn hf g es.te.startRow {} hg (inv.wft.tinv T) kg with
+    h | ⟨te', rows, w, R', heq, sim, res⟩
+  · exact Or.inl h
+  right
+  obtain ⟨ssE, mE, fE, runE⟩ := sim.ing ss inv.em.startRow hopts
+  have hself : setLR ssE es.te.startRow = ssE :=
     setLR_eq_self (fE.lrn.trans inv.lrn) (fE.lrp.trans inv.lrp) (fE.lrd.trans inv.lrd)
   have hres := res ssE (mE.agree sim.inv.wft R')
   rw [hself] at hres
@@ -203,6 +351,19 @@ theorem graphStart_sim {P : Preset} {T : Keys} (hf : TFits P T) {es : EncState} 
     by show ssE.rep.p = _; rw [fE.rep]; exact inv.rp,
     by show ssE.rep.o = _; rw [fE.rep]; exact inv.ro,
     by show ssE.rep.g = _; rw [fE.rep]; exact inv.rg⟩
+
+theorem graphStart_sim {P : Preset} {T : Keys} (hf : TFits P T) {es : EncState} {ss : Spec.State}
+    (inv : Inv P es ss) (hopts : ss.opts ≠ none) (g : Term) (hg : g.WFGraph = true)
+    (kg : (termKeys (P.maxPrefixes != 0) g).sub T) :
+    ∃ te' rows w ssE ss',
+      es.te.startRow.graph g = (te', .ok (rows, w)) ∧
+      (∀ rest acc i, Spec.run ss (rows ++ rest) acc i = Spec.run ssE rest acc (i + rows.length)) ∧
+      SameFrame ss ssE ∧
+      Spec.resolveTerm true ssE w = .ok (ss', g.norm) ∧
+      (∀ x, Inv P { es with te := te' } { ss' with graph := x }) ∧ ss'.opts = ss.opts := by
+  rcases graphStart_sim_gen (F := True) hf.posn (fun _ => hf) inv hopts g hg kg with ⟨h, _⟩ | h
+  · exact absurd trivial h
+  · exact h
 
 theorem Inv.graph {P : Preset} {es : EncState} {ss : Spec.State} (inv : Inv P es ss) (x : Option Term) :
     Inv P es { ss with graph := x } :=
@@ -277,18 +438,16 @@ theorem TFits.of_stmtFits {P : Preset} {terms : List Term} (hv : P.valid = true)
 
 /-! ## Run-level statements -/
 
-theorem triple_run1 {P : Preset} {T : Keys} (hf : TFits P T) {es : EncState} {ss : Spec.State}
-    (inv : Inv P es ss) {o : Options} (hopt : ss.opts = some o) (h1 : o.physicalType = 1)
-    (exc : PyErr) (s p ob : Term)
-    (hs : s.WF = true) (hp : p.WF = true) (hob : ob.WF = true)
-    (ks : (termKeys (P.maxPrefixes != 0) s).sub T) (kp : (termKeys (P.maxPrefixes != 0) p).sub T)
-    (ko : (termKeys (P.maxPrefixes != 0) ob).sub T) :
+def TripleRun1OK (P : Preset) (es : EncState) (ss : Spec.State) (o : Options) (exc : PyErr) (s p ob : Term) : Prop :=
     ∃ es' rows ss', encodeTriple exc es [s, p, ob] = (es', .ok rows) ∧ Inv P es' ss' ∧
       ss'.opts = some o ∧ ss'.graph = ss.graph ∧
       ∀ rest acc i, Spec.run ss (rows ++ rest) acc i
-        = Spec.run ss' rest (acc ++ [Event.stmt [s.norm, p.norm, ob.norm]]) (i + rows.length) := by
-  obtain ⟨es', rows, ws, wp, wo, ssE, ss', heq, hrun, fE, hres, inv', ho', hg'⟩ :=
-    encodeTriple_sim hf inv (by rw [hopt]; simp) exc s p ob hs hp hob ks kp ko
+        = Spec.run ss' rest (acc ++ [Event.stmt [s.norm, p.norm, ob.norm]]) (i + rows.length)
+
+theorem TripleSimOK.run1 {P : Preset} {es : EncState} {ss : Spec.State} {exc : PyErr} {s p ob : Term}
+    (h : TripleSimOK P es ss exc s p ob) {o : Options} (hopt : ss.opts = some o) (h1 : o.physicalType = 1) :
+    TripleRun1OK P es ss o exc s p ob := by
+  obtain ⟨es', rows, ws, wp, wo, ssE, ss', heq, hrun, fE, hres, inv', ho', hg'⟩ := h
   refine ⟨es', _, ss', heq, inv', ho'.trans hopt, hg', ?_⟩
   intro rest acc i
   have hoE : ssE.opts = some o := fE.opts.trans hopt
@@ -299,19 +458,45 @@ theorem triple_run1 {P : Preset} {T : Keys} (hf : TFits P T) {es : EncState} {ss
   rw [List.append_assoc, hrun, List.singleton_append, run_cons_ok hstep]
   simp only [Option.toList, List.length_append, List.length_cons, List.length_nil, Nat.add_assoc]
 
-theorem triple_run3 {P : Preset} {T : Keys} (hf : TFits P T) {es : EncState} {ss : Spec.State}
-    (inv : Inv P es ss) {o : Options} (hopt : ss.opts = some o) (h3 : o.physicalType = 3)
-    {gn : Term} (hgr : ss.graph = some gn)
+theorem triple_run1_gen {F : Prop} {P : Preset} {T : Keys} (hpn : 0 < P.maxNames) (hf : F → TFits P T)
+    {es : EncState} {ss : Spec.State}
+    (inv : Inv P es ss) {o : Options} (hopt : ss.opts = some o) (h1 : o.physicalType = 1)
+    (exc : PyErr) (s p ob : Term)
+    (hs : s.WF = true) (hp : p.WF = true) (hob : ob.WF = true)
+    (ks : (termKeys (P.maxPrefixes != 0) s).sub T) (kp : (termKeys (P.maxPrefixes != 0) p).sub T)
+    (ko : (termKeys (P.maxPrefixes != 0) ob).sub T) :
+    (¬ F ∧ ∃ es' e, encodeTriple exc es [s, p, ob] = (es', .error e)) ∨ TripleRun1OK P es ss o exc s p ob := by
+  rcases encodeTriple_sim_gen hpn hf inv (by rw [hopt]; simp) exc s p ob hs hp hob ks kp ko with h | h
+  · exact Or.inl h
+  · exact Or.inr (h.run1 hopt h1)
+
+theorem triple_run1 {P : Preset} {T : Keys} (hf : TFits P T) {es : EncState} {ss : Spec.State}
+    (inv : Inv P es ss) {o : Options} (hopt : ss.opts = some o) (h1 : o.physicalType = 1)
     (exc : PyErr) (s p ob : Term)
     (hs : s.WF = true) (hp : p.WF = true) (hob : ob.WF = true)
     (ks : (termKeys (P.maxPrefixes != 0) s).sub T) (kp : (termKeys (P.maxPrefixes != 0) p).sub T)
     (ko : (termKeys (P.maxPrefixes != 0) ob).sub T) :
     ∃ es' rows ss', encodeTriple exc es [s, p, ob] = (es', .ok rows) ∧ Inv P es' ss' ∧
+      ss'.opts = some o ∧ ss'.graph = ss.graph ∧
+      ∀ rest acc i, Spec.run ss (rows ++ rest) acc i
+        = Spec.run ss' rest (acc ++ [Event.stmt [s.norm, p.norm, ob.norm]]) (i + rows.length) := by
+  rcases triple_run1_gen (F := True) hf.posn (fun _ => hf) inv hopt h1 exc s p ob hs hp hob ks kp ko with
+    ⟨h, _⟩ | h
+  · exact absurd trivial h
+  · exact h
+
+def TripleRun3OK (P : Preset) (es : EncState) (ss : Spec.State) (o : Options) (gn : Term) (exc : PyErr)
+    (s p ob : Term) : Prop :=
+    ∃ es' rows ss', encodeTriple exc es [s, p, ob] = (es', .ok rows) ∧ Inv P es' ss' ∧
       ss'.opts = some o ∧ ss'.graph = some gn ∧
       ∀ rest acc i, Spec.run ss (rows ++ rest) acc i
-        = Spec.run ss' rest (acc ++ [Event.stmt [s.norm, p.norm, ob.norm, gn]]) (i + rows.length) := by
-  obtain ⟨es', rows, ws, wp, wo, ssE, ss', heq, hrun, fE, hres, inv', ho', hg'⟩ :=
-    encodeTriple_sim hf inv (by rw [hopt]; simp) exc s p ob hs hp hob ks kp ko
+        = Spec.run ss' rest (acc ++ [Event.stmt [s.norm, p.norm, ob.norm, gn]]) (i + rows.length)
+
+theorem TripleSimOK.run3 {P : Preset} {es : EncState} {ss : Spec.State} {exc : PyErr} {s p ob : Term}
+    (h : TripleSimOK P es ss exc s p ob) {o : Options} (hopt : ss.opts = some o) (h3 : o.physicalType = 3)
+    {gn : Term} (hgr : ss.graph = some gn) :
+    TripleRun3OK P es ss o gn exc s p ob := by
+  obtain ⟨es', rows, ws, wp, wo, ssE, ss', heq, hrun, fE, hres, inv', ho', hg'⟩ := h
   refine ⟨es', _, ss', heq, inv', ho'.trans hopt, hg'.trans hgr, ?_⟩
   intro rest acc i
   have hoE : ssE.opts = some o := fE.opts.trans hopt
@@ -325,18 +510,47 @@ theorem triple_run3 {P : Preset} {T : Keys} (hf : TFits P T) {es : EncState} {ss
   rw [List.append_assoc, hrun, List.singleton_append, run_cons_ok hstep]
   simp only [Option.toList, List.length_append, List.length_cons, List.length_nil, Nat.add_assoc]
 
-theorem quad_run {P : Preset} {T : Keys} (hf : TFits P T) {es : EncState} {ss : Spec.State}
-    (inv : Inv P es ss) {o : Options} (hopt : ss.opts = some o) (h2 : o.physicalType = 2)
-    (exc : PyErr) (s p ob g : Term)
-    (hs : s.WF = true) (hp : p.WF = true) (hob : ob.WF = true) (hg : g.WFGraph = true)
+theorem triple_run3_gen {F : Prop} {P : Preset} {T : Keys} (hpn : 0 < P.maxNames) (hf : F → TFits P T)
+    {es : EncState} {ss : Spec.State}
+    (inv : Inv P es ss) {o : Options} (hopt : ss.opts = some o) (h3 : o.physicalType = 3)
+    {gn : Term} (hgr : ss.graph = some gn)
+    (exc : PyErr) (s p ob : Term)
+    (hs : s.WF = true) (hp : p.WF = true) (hob : ob.WF = true)
     (ks : (termKeys (P.maxPrefixes != 0) s).sub T) (kp : (termKeys (P.maxPrefixes != 0) p).sub T)
-    (ko : (termKeys (P.maxPrefixes != 0) ob).sub T) (kg : (termKeys (P.maxPrefixes != 0) g).sub T) :
+    (ko : (termKeys (P.maxPrefixes != 0) ob).sub T) :
+    (¬ F ∧ ∃ es' e, encodeTriple exc es [s, p, ob] = (es', .error e)) ∨
+      TripleRun3OK P es ss o gn exc s p ob := by
+  rcases encodeTriple_sim_gen hpn hf inv (by rw [hopt]; simp) exc s p ob hs hp hob ks kp ko with h | h
+  · exact Or.inl h
+  · exact Or.inr (h.run3 hopt h3 hgr)
+
+theorem triple_run3 {P : Preset} {T : Keys} (hf : TFits P T) {es : EncState} {ss : Spec.State}
+    (inv : Inv P es ss) {o : Options} (hopt : ss.opts = some o) (h3 : o.physicalType = 3)
+    {gn : Term} (hgr : ss.graph = some gn)
+    (exc : PyErr) (s p ob : Term)
+    (hs : s.WF = true) (hp : p.WF = true) (hob : ob.WF = true)
+    (ks : (termKeys (P.maxPrefixes != 0) s).sub T) (kp : (termKeys (P.maxPrefixes != 0) p).sub T)
+    (ko : (termKeys (P.maxPrefixes != 0) ob).sub T) :
+    ∃ es' rows ss', encodeTriple exc es [s, p, ob] = (es', .ok rows) ∧ Inv P es' ss' ∧
+      ss'.opts = some o ∧ ss'.graph = some gn ∧
+      ∀ rest acc i, Spec.run ss (rows ++ rest) acc i
+        = Spec.run ss' rest (acc ++ [Event.stmt [s.norm, p.norm, ob.norm, gn]]) (i + rows.length) := by
+  rcases triple_run3_gen (F := True) hf.posn (fun _ => hf) inv hopt h3 hgr exc s p ob hs hp hob ks kp ko with
+    ⟨h, _⟩ | h
+  · exact absurd trivial h
+  · exact h
+
+def QuadRunOK (P : Preset) (es : EncState) (ss : Spec.State) (o : Options) (exc : PyErr)
+    (s p ob g : Term) : Prop :=
     ∃ es' rows ss', encodeQuad exc es [s, p, ob, g] = (es', .ok rows) ∧ Inv P es' ss' ∧
       ss'.opts = some o ∧ ss'.graph = ss.graph ∧
       ∀ rest acc i, Spec.run ss (rows ++ rest) acc i
-        = Spec.run ss' rest (acc ++ [Event.stmt [s.norm, p.norm, ob.norm, g.norm]]) (i + rows.length) := by
-  obtain ⟨es', rows, ws, wp, wo, wg, ssE, ss1, ss', heq, hrun, fE, hres, hres4, inv', ho', hg'⟩ :=
-    encodeQuad_sim hf inv (by rw [hopt]; simp) exc s p ob g hs hp hob hg ks kp ko kg
+        = Spec.run ss' rest (acc ++ [Event.stmt [s.norm, p.norm, ob.norm, g.norm]]) (i + rows.length)
+
+theorem QuadSimOK.run {P : Preset} {es : EncState} {ss : Spec.State} {exc : PyErr} {s p ob g : Term}
+    (h : QuadSimOK P es ss exc s p ob g) {o : Options} (hopt : ss.opts = some o) (h2 : o.physicalType = 2) :
+    QuadRunOK P es ss o exc s p ob g := by
+  obtain ⟨es', rows, ws, wp, wo, wg, ssE, ss1, ss', heq, hrun, fE, hres, hres4, inv', ho', hg'⟩ := h
   refine ⟨es', _, _, heq, inv', ho'.trans hopt, hg', ?_⟩
   intro rest acc i
   have hoE : ssE.opts = some o := fE.opts.trans hopt
@@ -348,15 +562,43 @@ theorem quad_run {P : Preset} {T : Keys} (hf : TFits P T) {es : EncState} {ss : 
   rw [List.append_assoc, hrun, List.singleton_append, run_cons_ok hstep]
   simp only [Option.toList, List.length_append, List.length_cons, List.length_nil, Nat.add_assoc]
 
-theorem graphStart_run {P : Preset} {T : Keys} (hf : TFits P T) {es : EncState} {ss : Spec.State}
-    (inv : Inv P es ss) {o : Options} (hopt : ss.opts = some o) (h3 : o.physicalType = 3)
-    (g : Term) (hg : g.WFGraph = true) (kg : (termKeys (P.maxPrefixes != 0) g).sub T) :
-    ∃ te' rows w ss', es.te.graph g = (te', .ok (rows, w)) ∧ Inv P { es with te := te' } ss' ∧
+theorem quad_run_gen {F : Prop} {P : Preset} {T : Keys} (hpn : 0 < P.maxNames) (hf : F → TFits P T)
+    {es : EncState} {ss : Spec.State}
+    (inv : Inv P es ss) {o : Options} (hopt : ss.opts = some o) (h2 : o.physicalType = 2)
+    (exc : PyErr) (s p ob g : Term)
+    (hs : s.WF = true) (hp : p.WF = true) (hob : ob.WF = true) (hg : g.WFGraph = true)
+    (ks : (termKeys (P.maxPrefixes != 0) s).sub T) (kp : (termKeys (P.maxPrefixes != 0) p).sub T)
+    (ko : (termKeys (P.maxPrefixes != 0) ob).sub T) (kg : (termKeys (P.maxPrefixes != 0) g).sub T) :
+    (¬ F ∧ ∃ es' e, encodeQuad exc es [s, p, ob, g] = (es', .error e)) ∨ QuadRunOK P es ss o exc s p ob g := by
+  rcases encodeQuad_sim_gen hpn hf inv (by rw [hopt]; simp) exc s p ob g hs hp hob hg ks kp ko kg with h | h
+  · exact Or.inl h
+  · exact Or.inr (h.run hopt h2)
+
+theorem quad_run {P : Preset} {T : Keys} (hf : TFits P T) {es : EncState} {ss : Spec.State}
+    (inv : Inv P es ss) {o : Options} (hopt : ss.opts = some o) (h2 : o.physicalType = 2)
+    (exc : PyErr) (s p ob g : Term)
+    (hs : s.WF = true) (hp : p.WF = true) (hob : ob.WF = true) (hg : g.WFGraph = true)
+    (ks : (termKeys (P.maxPrefixes != 0) s).sub T) (kp : (termKeys (P.maxPrefixes != 0) p).sub T)
+    (ko : (termKeys (P.maxPrefixes != 0) ob).sub T) (kg : (termKeys (P.maxPrefixes != 0) g).sub T) :
+    ∃ es' rows ss', encodeQuad exc es [s, p, ob, g] = (es', .ok rows) ∧ Inv P es' ss' ∧
+      ss'.opts = some o ∧ ss'.graph = ss.graph ∧
+      ∀ rest acc i, Spec.run ss (rows ++ rest) acc i
+        = Spec.run ss' rest (acc ++ [Event.stmt [s.norm, p.norm, ob.norm, g.norm]]) (i + rows.length) := by
+  rcases quad_run_gen (F := True) hf.posn (fun _ => hf) inv hopt h2 exc s p ob g hs hp hob hg ks kp ko kg with
+    ⟨h, _⟩ | h
+  · exact absurd trivial h
+  · exact h
+
+def GraphStartRunOK (P : Preset) (es : EncState) (ss : Spec.State) (o : Options) (g : Term) : Prop :=
+    ∃ te' rows w ss', es.te.startRow.graph g = (te', .ok (rows, w)) ∧ Inv P { es with te := te' } ss' ∧
       ss'.opts = some o ∧ ss'.graph = some g.norm ∧
       ∀ rest acc i, Spec.run ss (rows ++ [Row.graphStart (some w)] ++ rest) acc i
-        = Spec.run ss' rest acc (i + (rows ++ [Row.graphStart (some w)]).length) := by
-  obtain ⟨te', rows, w, ssE, ss', heq, hrun, fE, hres, inv', ho'⟩ :=
-    graphStart_sim hf inv (by rw [hopt]; simp) g hg kg
+        = Spec.run ss' rest acc (i + (rows ++ [Row.graphStart (some w)]).length)
+
+theorem GraphStartSimOK.run {P : Preset} {es : EncState} {ss : Spec.State} {g : Term}
+    (h : GraphStartSimOK P es ss g) {o : Options} (hopt : ss.opts = some o) (h3 : o.physicalType = 3) :
+    GraphStartRunOK P es ss o g := by
+  obtain ⟨te', rows, w, ssE, ss', heq, hrun, fE, hres, inv', ho'⟩ := h
   refine ⟨te', rows, w, { ss' with graph := some g.norm }, heq, inv' _, ho'.trans hopt, rfl, ?_⟩
   intro rest acc i
   have hoE : ssE.opts = some o := fE.opts.trans hopt
@@ -367,6 +609,26 @@ theorem graphStart_run {P : Preset} {T : Keys} (hf : TFits P T) {es : EncState} 
   rw [List.append_assoc, hrun, List.singleton_append, run_cons_ok hstep]
   simp only [Option.toList, List.append_nil, List.length_append, List.length_cons, List.length_nil,
     Nat.add_assoc]
+
+theorem graphStart_run_gen {F : Prop} {P : Preset} {T : Keys} (hpn : 0 < P.maxNames) (hf : F → TFits P T)
+    {es : EncState} {ss : Spec.State}
+    (inv : Inv P es ss) {o : Options} (hopt : ss.opts = some o) (h3 : o.physicalType = 3)
+    (g : Term) (hg : g.WFGraph = true) (kg : (termKeys (P.maxPrefixes != 0) g).sub T) :
+    (¬ F ∧ ∃ te' e, es.te.startRow.graph g = (te', .error e)) ∨ GraphStartRunOK P es ss o g := by
+  rcases graphStart_sim_gen hpn hf inv (by rw [hopt]; simp) g hg kg with h | h
+  · exact Or.inl h
+  · exact Or.inr (h.run hopt h3)
+
+theorem graphStart_run {P : Preset} {T : Keys} (hf : TFits P T) {es : EncState} {ss : Spec.State}
+    (inv : Inv P es ss) {o : Options} (hopt : ss.opts = some o) (h3 : o.physicalType = 3)
+    (g : Term) (hg : g.WFGraph = true) (kg : (termKeys (P.maxPrefixes != 0) g).sub T) :
+    ∃ te' rows w ss', es.te.startRow.graph g = (te', .ok (rows, w)) ∧ Inv P { es with te := te' } ss' ∧
+      ss'.opts = some o ∧ ss'.graph = some g.norm ∧
+      ∀ rest acc i, Spec.run ss (rows ++ [Row.graphStart (some w)] ++ rest) acc i
+        = Spec.run ss' rest acc (i + (rows ++ [Row.graphStart (some w)]).length) := by
+  rcases graphStart_run_gen (F := True) hf.posn (fun _ => hf) inv hopt h3 g hg kg with ⟨h, _⟩ | h
+  · exact absurd trivial h
+  · exact h
 
 theorem graphEnd_run {P : Preset} {es : EncState} {ss : Spec.State}
     (inv : Inv P es ss) {o : Options} (hopt : ss.opts = some o) (h3 : o.physicalType = 3)
